@@ -38,7 +38,12 @@ TFifo == T("fifo", <<
     D(5, R, "a"), N(6, 5, "p", "fifo", <<>>), L(7, R, "lp", <<"a", "p">>), F(8, 5, "f")
   >>, 3)
 
-Catalogue == <<TBasic, TEscape, TChain, TLoop2, TSlash, TFifo>>
+\* names that merely look like "." and "..": ordinary names for the kernel, a trap for any predicate on "all dots"
+TDots == T("dots", <<
+    D(5, R, "..."), F(6, 5, "x"), F(7, R, "x"), D(8, 5, "...."), F(9, 8, "y"), L(10, R, "l3", <<"...", "....">>), L(11, 5, "up3", <<"..", "...", "x">>)
+  >>, 3)
+
+Catalogue == <<TBasic, TEscape, TChain, TLoop2, TSlash, TFifo, TDots>>
 
 \* ---- generated family: every tree with two nodes below the root ----
 GenBodies == {<<"a">>, <<"b">>, <<"..">>, <<"..", "b">>, <<"", "a">>, <<"">> \o <<"..", "..", "out">>, <<"a", "">>, <<".">>, <<"b", "..", "a">>}
